@@ -33,6 +33,7 @@ def run(ctx):
     reload_(ctx)
     read1(ctx)
     seqbase(ctx)
+    partialmax(ctx)
 
 
 def _callers(F, target):
@@ -381,3 +382,44 @@ def _named_last_seq(b, o):
     if o.kind == "arg":
         return "last_seq" in b.lname(o.local)
     return False
+
+
+# ------------------------------------------------------------------------------------------------ partialmax
+def partialmax(ctx):
+    """partials must lie within 1..head: recording a partial for a version not seen before raises max to it
+    (the reload path from_conn relies on this: it replays the partial rows through insert_partial)"""
+    F = ctx.F
+    R = ctx.rule("C02.partialmax", "K6", "insert_partial raises the head (max) to the version whenever it records a new partial, so partially held versions never lie beyond the advertised head")
+    b = F.get(INSERT_PARTIAL)
+    if not R.anchor(b, "insert_partial", "fn " + INSERT_PARTIAL):
+        return
+    vins = [c for c in b.calls if re.search(r"btree::map::entry::VacantEntry::<'a, K, V, A>::insert(_entry)?$|BTreeMap::<K, V, A>::insert$", c.f)]
+    mx = [x for x in cm.field_mutation_sites(F, BV, "max", [b]) if x[2].startswith("assign")]
+    if not (R.anchor(vins, "vacant-insert", "insertion of a new partial") and
+            R.require(bool(mx), "max-assign", b.where(), "insert_partial assigns self.max", fail_msg="insert_partial no longer updates self.max: a partial recorded for a version above the head stays beyond the advertised head (reload after restart advertises a head below its partials)")):
+        return
+    v = vins[0]
+    same_arm = [x for x in mx if b.dominates(x[1], v.bb) or b.dominates(v.bb, x[1])]
+    R.require(bool(same_arm), "max-with-new-partial", v.where(), "the max update is on the same path as the insertion of the new partial",
+              fail_msg="self.max is not updated on the path that inserts a new partial")
+    # value: cmp::max(self.max, Some(version))
+    ok = False
+    for (bd, bb, how, line) in mx:
+        for i, st in enumerate(b.blocks[bb]["s"]):
+            if st[0] == "A" and st[3] == line and st[2][0] == "use" and op_place(st[2][1]) is not None:
+                org = flow.origins(b, op_place(st[2][1]), at=(bb, i), stop=lambda call: call.name() in ("max", "min"))
+                for o in org:
+                    if o.kind == "call" and o.call.name() == "max":
+                        a = cm.origin_summary(cm.operand_origins(b, o.call, 0)) + cm.origin_summary(cm.operand_origins(b, o.call, 1))
+                        if any("max" in x for x in a) and any(x.startswith("arg2") for x in a):
+                            ok = True
+        t = b.term(bb)
+        if t["t"] == "call" and t["dest"][0] == 1 or True:
+            pass
+    # the assignment may be the destination of the cmp::max call itself
+    for c in b.calls:
+        if c.name() == "max" and any(isinstance(p, list) and p[0] == "f" and p[2] == "max" for p in c.dest[1:]):
+            a = cm.origin_summary(cm.operand_origins(b, c, 0)) + cm.origin_summary(cm.operand_origins(b, c, 1))
+            if any("max" in x for x in a) and any(x.startswith("arg2") for x in a):
+                ok = True
+    R.require(ok, "max-value", b.where(), "self.max = max(self.max, Some(version))", fail_msg="self.max is not set to max(self.max, Some(version)) in insert_partial")
